@@ -33,7 +33,7 @@ for i, where_ in enumerate(['enc-normal', 'enc-fast', 'dec-normal', 'dec-fast'])
       (ENC_LIVE, ENC_LIVE.replace('>= 0', '>= -1'), i + 1))
 V('live-gt0-both-sides', ['C01', 'C05', 'C06'], 'R-LIVE', SW, *[(ENC_LIVE, ENC_LIVE.replace('>= 0', '> 0'), 1)] * 4,
   note='consistent change: invisible to every round trip')
-V('live-gt0-repair', ['C08', 'C09', 'C10'], 'R-LIVE', SW,
+V('live-gt0-repair', ['C08', 'C09'], 'R-LIVE', SW,
   ("used_indices, nucleotide = where(accessor[vertex_index] >= 0)[0]", "used_indices, nucleotide = where(accessor[vertex_index] > 0)[0]"))
 for i in range(4):
     V('live-gt0-path-matching-%d' % (i + 1), ['C08'], 'R-LIVE', GR, ("where(accessor[", "where(accessor[", 1),
@@ -209,6 +209,57 @@ V('legal-test-deleted', ['C14'], 'R-LEGAL', GR, ("        if list(set(next_indic
 V('legal-arm-pass', ['C14'], 'R-LEGAL|R-EXC', GR, ("            raise ValueError(\"Wrong format in the adjacency matrix, \"\n                             + \"which cannot be converted to equivalent compressed accessor!\")", "            pass"))
 V('bfs-depth-minus1', ['C14'], 'R-BFS', GR, ("    elif latter_map is not None:\n        for step in range(depth):", "    elif latter_map is not None:\n        for step in range(depth - 1):"))
 V('bfs-no-rebind', ['C14'], 'R-BFS', GR, ("                level += available_latters\n            branch = level", "                level += available_latters\n            pass"))
+
+# ---------------------------------------------------------------- R-PROG
+V('defect-D2-elif', ['C10'], 'R-PROG', SW, ("        else:\n            detected_count += 1", "        elif len(split_sequences[-1]) > 0:\n            detected_count += 1"))
+V('prog-step-in-one-arm', ['C10', 'C08'], 'R-PROG|R-TILE', SW, ("            location += observed_length + 1\n", "            if detected_count > 1:\n                location += observed_length + 1\n"))
+V('prog-heap-guard-dropped', ['C10'], 'R-PROG', SW, ("    if count == 0 or count > heap_size:", "    if count == 0:"))
+V('prog-while-true-in-matching', ['C10'], 'R-PROG', GR, ("    if has_indel:\n        for a_nucleotide in", "    while len(repair_info) > 1000:\n        visited_count += 1\n\n    if has_indel:\n        for a_nucleotide in"))
+V('prog-walk-arm-no-advance', ['C10'], 'R-PROG', SW, ("            visited_times += 1\n            location += 1\n", "            visited_times += 1\n"))
+V('prog-recursion', ['C10'], 'R-PROG', SW, ("    repaired_fragment_set = [set() for _ in range(len(index_markers))]", "    if detected_count > 100:\n        return repair_dna(dna_sequence, accessor, start_index, observed_length, vt_check, has_indel, heap_size)\n    repaired_fragment_set = [set() for _ in range(len(index_markers))]"))
+V('exc-repair-raises', ['C10'], 'R-EXC', SW, ("    repaired_results, count = set(), 1\n", "    repaired_results, count = set(), 1\n    if detected_count > len(dna_sequence) // 2:\n        raise ValueError(\"too many errors\")\n"))
+V('typed-repair-numpy-to-dna', ['C10'], 'R-TYPED', SW, ("number_to_dna(decimal_number=int(vt_value), dna_length=vt_length - 1)", "number_to_dna(decimal_number=vt_value, dna_length=vt_length - 1)"))
+
+# ---------------------------------------------------------------- R-TILE
+V('defect-D8-neg-bound', ['C08'], 'R-TILE', SW, ("split_sequences[-1][: -(observed_length - 1) or None]", "split_sequences[-1][: - observed_length + 1]"))
+V('tile-numpy-max-clamp', ['C08'], 'R-TILE', SW, ("split_sequences[-1][: -(observed_length - 1) or None]", "split_sequences[-1][: max(len(split_sequences[-1]) - observed_length + 1, 0)]"),
+  note='the first version of the D8 repair: max is numpy.max in this module, the 0 is an axis')
+V('tile-trim-k', ['C08'], 'R-TILE', SW, ("split_sequences[-1][: -(observed_length - 1) or None]", "split_sequences[-1][: -observed_length]"))
+V('tile-resume-lo', ['C08'], 'R-TILE', SW, ("dna_sequence[location + 1: location + observed_length + 1]", "dna_sequence[location: location + observed_length + 1]"))
+V('tile-resume-hi', ['C08'], 'R-TILE', SW, ("dna_sequence[location + 1: location + observed_length + 1]", "dna_sequence[location + 1: location + observed_length]"))
+V('tile-marker-lo', ['C08'], 'R-TILE', SW, ("index_queue[location - observed_length: location]", "index_queue[location - observed_length + 1: location]"))
+V('tile-marker-hi', ['C08'], 'R-TILE', SW, ("index_queue[location - observed_length: location]", "index_queue[location - observed_length: location + 1]"))
+V('tile-chunk-lo', ['C08'], 'R-TILE', SW, ("dna_sequence[location - observed_length + 1: location + observed_length]", "dna_sequence[location - observed_length: location + observed_length]"))
+V('tile-chunk-hi', ['C08'], 'R-TILE', SW, ("dna_sequence[location - observed_length + 1: location + observed_length]", "dna_sequence[location - observed_length + 1: location + observed_length + 1]"))
+V('tile-step-k', ['C08'], 'R-TILE', SW, ("            location += observed_length + 1\n", "            location += observed_length\n"))
+V('tile-occur-plus1', ['C08'], 'R-TILE', SW, ("occur_location=observed_length - recall - 1)", "occur_location=observed_length - recall)"))
+V('tile-marker-not-reversed', ['C08'], 'R-TILE', SW, ("for recall, vertex_index in enumerate(index_marker[::-1]):", "for recall, vertex_index in enumerate(index_marker):"))
+V('tile-seed-div4', ['C08'], 'R-TILE', SW, ("split_sequences.append(nucleotides[vertex_index % 4])", "split_sequences.append(nucleotides[vertex_index // 4 % 4])"))
+
+# ---------------------------------------------------------------- R-CAND
+V('cand-subst-under-indel', ['C08'], 'R-CAND|R-WALK', GR, ("    for r_nucleotide in list(filter(", "    for r_nucleotide in [] if not has_indel else list(filter("),
+  note='substitution candidates only with has_indel (expressed through the iterable)')
+V('cand-append-unconditional', ['C08'], 'R-CAND', GR, ("        if reliable:  # \"S\" refers to repair by substation.\n", "        if True:  # \"S\" refers to repair by substation.\n"))
+V('cand-flag-not-cleared', ['C08'], 'R-CAND|R-WALK', GR, ("            else:\n                reliable = False\n                break\n\n        if reliable:  # \"S\"", "            else:\n                break\n\n        if reliable:  # \"S\""))
+V('cand-insert-plus1', ['C08'], 'R-CAND', GR, ("obtained_dna_sequence.insert(occur_location, a_nucleotide)", "obtained_dna_sequence.insert(occur_location + 1, a_nucleotide)"))
+V('cand-delete-plus1', ['C08'], 'R-CAND', GR, ("del obtained_dna_sequence[occur_location]", "del obtained_dna_sequence[occur_location + 1]"))
+V('cand-replace-minus1', ['C08'], 'R-CAND', GR, ("obtained_dna_sequence[occur_location] = r_nucleotide", "obtained_dna_sequence[occur_location - 1] = r_nucleotide"))
+V('cand-S-tail-from-occur', ['C08'], 'R-CAND', GR, ("        for index, nucleotide in enumerate(dna_sequence[occur_location + 1:]):\n            used_nucleotides = [nucleotides[used_index] for used_index in where(accessor[vertex_index] >= 0)[0]]\n            if nucleotide in used_nucleotides:\n                vertex_index = accessor[vertex_index][nucleotides.index(nucleotide)]\n                visited_count += 1\n            else:\n                reliable = False\n                break\n\n        if reliable:  # \"S\"",
+                                                      "        for index, nucleotide in enumerate(dna_sequence[occur_location:]):\n            used_nucleotides = [nucleotides[used_index] for used_index in where(accessor[vertex_index] >= 0)[0]]\n            if nucleotide in used_nucleotides:\n                vertex_index = accessor[vertex_index][nucleotides.index(nucleotide)]\n                visited_count += 1\n            else:\n                reliable = False\n                break\n\n        if reliable:  # \"S\""))
+V('cand-I-tail-plus1', ['C08'], 'R-CAND', GR, ("            for nucleotide in dna_sequence[occur_location:]:", "            for nucleotide in dna_sequence[occur_location + 1:]:"))
+V('cand-tail-no-membership', ['C08'], 'R-WALK', GR, ("            for nucleotide in dna_sequence[occur_location:]:\n                used_nucleotides = [nucleotides[used_index] for used_index in where(accessor[vertex_index] >= 0)[0]]\n                if nucleotide in used_nucleotides:",
+                                                      "            for nucleotide in dna_sequence[occur_location:]:\n                used_nucleotides = [nucleotides[used_index] for used_index in where(accessor[vertex_index] >= 0)[0]]\n                if nucleotide in nucleotides:"))
+
+# ---------------------------------------------------------------- R-RET
+V('ret-fallback-unconditional', ['C09'], 'R-RET', SW, ("        if vt_check is not None:\n            if vt_check == set_vt(dna_sequence=dna_sequence, vt_length=len(vt_check)):\n                return [dna_sequence], (0, False, 0, visited_times)\n            else:\n                return [], (0, True, 0, visited_times)\n        else:\n            return [dna_sequence], (0, False, 0, visited_times)",
+                                                        "        return [dna_sequence], (0, False, 0, visited_times)"))
+V('ret-not-sorted', ['C09', 'C20'], 'R-RET|R-STATE', SW, ("    return sorted(list(repaired_results)), (detected_count", "    return list(repaired_results), (detected_count"))
+V('ret-add-before-compare', ['C09'], 'R-RET', SW, ("        if vt_check is not None:\n            if vt_check == set_vt(dna_sequence=repaired_dna_sequence, vt_length=len(vt_check)):\n                repaired_results.add(repaired_dna_sequence)\n            else:\n                chuck_flag = True\n        else:\n            repaired_results.add(repaired_dna_sequence)",
+                                                     "        repaired_results.add(repaired_dna_sequence)\n        if vt_check is not None:\n            if vt_check != set_vt(dna_sequence=repaired_dna_sequence, vt_length=len(vt_check)):\n                chuck_flag = True"))
+V('ret-check-other-strand', ['C09'], 'R-RET', SW, ("            if vt_check == set_vt(dna_sequence=repaired_dna_sequence, vt_length=len(vt_check)):", "            if vt_check == set_vt(dna_sequence=dna_sequence, vt_length=len(vt_check)):"))
+V('ret-check-len-minus1', ['C09'], 'R-RET', SW, ("            if vt_check == set_vt(dna_sequence=repaired_dna_sequence, vt_length=len(vt_check)):", "            if vt_check[1:] == set_vt(dna_sequence=repaired_dna_sequence, vt_length=len(vt_check) - 1):"))
+V('ret-results-list', ['C09'], 'R-RET', SW, ("    repaired_results, count = set(), 1", "    repaired_results, count = [], 1"), ("                repaired_results.add(repaired_dna_sequence)\n            else:\n                chuck_flag", "                repaired_results.append(repaired_dna_sequence)\n            else:\n                chuck_flag"),
+  ("        else:\n            repaired_results.add(repaired_dna_sequence)", "        else:\n            repaired_results.append(repaired_dna_sequence)"))
 
 # ---------------------------------------------------------------- benign twins (every property must stay exit 0)
 ALL = ['C%02d' % i for i in range(1, 21)]
